@@ -55,6 +55,9 @@ func AesDecrypt(encResult, key []byte) ([]byte, error) {
 		return nil, err
 	}
 	blockSize := block.BlockSize()
+	if len(encResult) == 0 || len(encResult)%blockSize != 0 {
+		return nil, ErrPKCS5UnPadding
+	}
 	blockMode := cipher.NewCBCDecrypter(block, key[:blockSize])
 	origData := make([]byte, len(encResult))
 	blockMode.CryptBlocks(origData, encResult)
